@@ -7,7 +7,7 @@ cd "$(dirname "$0")"
 export GOFLAGS=-mod=mod GOPROXY=off GOSUMDB=off GOTOOLCHAIN=local GOWORK=off
 REPO="${VERIF_REPO:-/repo}"
 if [ ! -x bin/bblint ] || [ -n "$(find tool/cmd -newer bin/bblint -type f 2>/dev/null | head -1)" ]; then
-  (cd tool && GOFLAGS=-mod=vendor go build -o ../bin/bblint ./cmd/bblint) || { echo "VIOLATION property=$id replay=- rule=analyser-build-failure"; exit 1; }
+  (cd tool && GOFLAGS=-mod=vendor go build -o ../bin/bblint.new ./cmd/bblint && mv ../bin/bblint.new ../bin/bblint) || { echo "VIOLATION property=$id replay=- rule=analyser-build-failure"; exit 1; }
 fi
 mkdir -p evidence
 if [ "$tier" = thorough ] && [ -x ./selftest.sh ]; then
